@@ -1,3 +1,4 @@
+mod cells;
 mod check;
 mod events;
 mod explore;
